@@ -93,6 +93,11 @@ def generate(rng, tier):
         off = rng.choice([timeout / 1000.0 - 0.001, timeout / 1000.0, timeout / 1000.0 + 0.001, 0.1, 0.25, 0.5, 1.3])
         ops.append({"t": round(t_start + off, 6), "op": "send", "p": "P",
                     "msg": {"qr": 1, "an": [_with_ttl(R[key], rng.choice([120, 120, 1, 0])).to_json()]}})
+    if rng.random() < 0.2:
+        # the process is descheduled across the lookup's deadline (or across one of its query instants): what arrives
+        # meanwhile waits in the socket and is read, together with every timer that came due, when it runs again
+        at = rng.choice([timeout / 1000.0 - 0.15, timeout / 1000.0 - 0.05, timeout / 1000.0 - 0.001, 0.15, 0.9])
+        ops.append({"t": round(t_start + max(0.001, at), 6), "op": "stall", "h": "V", "dur": rng.choice([0.1, 0.3, 0.6])})
     ops.sort(key=lambda o: o["t"])
     faults = {"max_delay_us": rng.choice([0, 0, 1000, 30000]), "loop_delay_us": rng.choice([0, 300]),
               "dup_p": rng.choice([0.0, 0.1])}
@@ -246,7 +251,13 @@ def _oracle(w, drv, sc, st, stats, out):
         t_ret = e["t_done"]
         res = bool(e["result"])
         stats["returned_true" if res else "returned_false"] += 1
-        if t_ret > t_start + timeout + 0.001:
+        # (time during which the process did not run does not count against the library)
+        stalled = sum(max(0.0, min(b, t_ret) - max(a, t_start)) for a, b, hn in drv.stalls if hn == "V")
+        # (with the process descheduled during the lookup, which query on the trace belongs to which lookup and what the
+        # cache held "when it was sent" are no longer told by the instants alone: the query-schedule clauses are left to
+        # the runs without stalls, the return and provenance clauses stay)
+        stalled_near = any(a <= t_ret + 0.01 and b >= t_start - 0.01 for a, b, hn in drv.stalls if hn == "V")
+        if t_ret > t_start + timeout + 0.001 + stalled:
             out.add("C18.late-return", f"lookup with timeout {lk['timeout']} ms returned after {1000 * (t_ret - t_start):.3f} ms")
         addrs = set(info.addresses_by_version(IPVersion.All))
         if res != bool(addrs):
@@ -338,7 +349,7 @@ def _oracle(w, drv, sc, st, stats, out):
                 if addrs != all_now:
                     out.add("C18.cached-addresses-incomplete", f"loaded from the cache but reports {sorted(addrs)}, cache held "
                             f"{sorted(all_now)} unexpired")
-        elif not suffices_any and not others and mine:
+        elif not suffices_any and not others and mine and not stalled_near:
             forced = lk["qtype"]
             first = mine[0]
             want_qu = forced != "QM"
